@@ -1,8 +1,13 @@
 (* C03 — decoding inverts encoding (bytes and stream-with-scope).  Property theorems only.
-   Proved for the leaf kinds with scoped stream decoding (the stream = its remaining bytes; an
-   arbitrary suffix comes back untouched = "consumes exactly scope bytes").  Composite kinds are
-   tied by the correspondence (random prefix / suffix, full and boundary values). *)
-Require Import RM.Base RM.Tree RM.Types RM.Spec RM.ModelViews RM.ModelCodec RM.CodecBasicProofs RM.CtorProofs.
+   C03_roundtrip is the full statement: for EVERY type and every well-formed value whose encoding is
+   shorter than 2^32 bytes (SSZ offsets are 4 bytes; longer encodings are outside the format), the
+   value can be constructed, and decoding its specification encoding — from a stream positioned
+   anywhere (the stream = its remaining bytes; an arbitrary suffix follows) and given the exact scope,
+   or from bytes — succeeds, returns EXACTLY the backing tree the constructor builds (hence identical
+   content, hash-tree-root and equality) and leaves the suffix untouched ("consumes exactly scope
+   bytes").  Every valid encoding is therefore accepted.  With C02_constructed, re-encoding the
+   decoded value gives the bytes back.  The leaf-kind theorems are kept as stated before. *)
+Require Import RM.Base RM.Tree RM.Types RM.Spec RM.ModelViews RM.ModelCodec RM.CodecBasicProofs RM.CtorProofs RM.DeserProofs RM.SerAll.
 Local Open Scope N_scope.
 
 Theorem C03_uint_roundtrip : forall H k n sfx, uint_size_ok k = true -> n < 2 ^ (8 * k) ->
@@ -22,6 +27,35 @@ Theorem C03_bool_roundtrip : forall H (b : bool) sfx,
   deser_impl H TBool ((if b then x01 else x00) :: sfx) 1 = Ok (RootN (pad32 [if b then x01 else x00]), sfx).
 Proof. intros H b sfx. destruct b; reflexivity. Qed.
 
+(* the full statement, every type, any nesting depth, any hash function *)
+Theorem C03_roundtrip : forall H t v, wf_ty t = true -> wf t v = true -> lenN (ser t v) < 2 ^ 32 ->
+  exists n, mk H t v = Ok n /\ root H n = htr H t v /\
+    (forall sfx, deser_impl H t (ser t v ++ sfx) (lenN (ser t v)) = Ok (n, sfx)) /\
+    decode_bytes H t (ser t v) = Ok n.
+Proof. exact roundtrip_total. Qed.
+
+(* decode then encode gives the bytes back (C03 + C02) *)
+Theorem C03_decode_encode : forall H src t v, wf_ty t = true -> wf t v = true -> lenN (ser t v) < 2 ^ 32 ->
+  exists n, decode_bytes H t (ser t v) = Ok n /\ ser_impl H src t n = Ok (ser t v, lenN (ser t v)).
+Proof.
+  intros H src t v Hty Hwf Hb. destruct (roundtrip_total H t v Hty Hwf Hb) as (n & Hn & _ & _ & Hd).
+  exists n. split; [exact Hd|]. exact (ser_constructed H src t v n Hty Hwf Hn).
+Qed.
+
+(* non-vacuity: nested types mixing every kind have well-formed values with short encodings *)
+Example C03_roundtrip_nonvacuous :
+  let t := TContainer [TUint 8; TList (TContainer [TBool; TList (TUint 2) 7; TBitlist 9]) 5; TByteVector 33;
+                       TUnion true [TBitvector 12; TVector (TByteList 4) 2]] in
+  let v := VCont [VUint 77;
+                  VSeq [VCont [VBool true; VSeq [VUint 513; VUint 2]; VBits [true; false; true]];
+                        VCont [VBool false; VSeq []; VBits []]];
+                  VBytes (repeat x01 33);
+                  VUnion 2 (Some (VSeq [VBytes [x01; x02]; VBytes []]))] in
+  wf_ty t = true /\ wf t v = true /\ lenN (ser t v) < 2 ^ 32.
+Proof. vm_compute. repeat split. Qed.
+
 Print Assumptions C03_uint_roundtrip.
+Print Assumptions C03_roundtrip.
+Print Assumptions C03_decode_encode.
 Print Assumptions C03_uint_same_value.
 Print Assumptions C03_bool_roundtrip.
